@@ -205,5 +205,153 @@ _loaded = {}
 def load(fdir, crate):
     key = (fdir, crate)
     if key not in _loaded:
-        _loaded[key] = Crate(crate, os.path.join(fdir, crate + '.jsonl'))
+        cr = Crate(crate, os.path.join(fdir, crate + '.jsonl'))
+        apply_inlining(cr)
+        _loaded[key] = cr
     return _loaded[key]
+
+
+# ----------------------------------------------------------------------------------------------------------------
+# Helper inlining.  The rules are written against the repository's function inventory (rules/inventory.json, the
+# names of every function of the 13 library crates on the tree the rules were developed on).  A function that is not
+# in the inventory is a helper somebody extracted later: for the analyses it is part of its callers, so its body is
+# inlined at every call site inside its crate (to depth 3, recursion excluded).  The helper itself stays visible as a
+# function of its own as well.  With an unchanged inventory nothing is inlined.
+
+INVENTORY = os.path.join(VERIF, 'rules', 'inventory.json')
+_inventory = None
+
+
+def inventory():
+    global _inventory
+    if _inventory is None:
+        try:
+            _inventory = {k: set(v) for k, v in json.load(open(INVENTORY)).items()}
+        except (OSError, ValueError):
+            _inventory = {}
+    return _inventory
+
+
+_PROM = re.compile(r'promoted\[(\d+)\]')
+
+
+def _rp(place, lo):
+    return [place[0] + lo, [('[%d]' % (int(x[1:-1]) + lo) if isinstance(x, str) and re.fullmatch(r'\[\d+\]', x) else x) for x in place[1]]]
+
+
+def _ro(op, lo, po):
+    if op[0] == 'k':
+        return ['k', _PROM.sub(lambda m: 'promoted[%d]' % (int(m.group(1)) + po), op[1])] if po and isinstance(op[1], str) else op
+    return [op[0], _rp(op[1], lo)]
+
+
+def _rrv(rv, lo, po):
+    k = rv[0]
+    if k in ('use', 'repeat'):
+        return [k, _ro(rv[1], lo, po)]
+    if k == 'ref':
+        return [k, _rp(rv[1], lo)] + list(rv[2:])
+    if k == 'bin':
+        return [k, rv[1], _ro(rv[2], lo, po), _ro(rv[3], lo, po)]
+    if k == 'un':
+        return [k, rv[1], _ro(rv[2], lo, po)]
+    if k == 'cast':
+        return [k, _ro(rv[1], lo, po)] + list(rv[2:])
+    if k in ('disc', 'len'):
+        return [k, _rp(rv[1], lo)] + list(rv[2:])
+    if k == 'agg':
+        return [k, rv[1], [_ro(o, lo, po) for o in rv[2]]] + list(rv[3:])
+    return list(rv)
+
+
+def _rterm(t, lo, bo, po):
+    k = t[0]
+
+    def bb(x):
+        return x + bo if isinstance(x, int) and x >= 0 else x
+    if k == 'call':
+        return ['call', t[1], t[2], [_ro(a, lo, po) for a in t[3]], _rp(t[4], lo), bb(t[5]), bb(t[6])] + list(t[7:])
+    if k == 'sw':
+        return ['sw', _ro(t[1], lo, po), [[v, bb(b_)] for v, b_ in t[2]], bb(t[3])] + list(t[4:])
+    if k in ('goto', 'yield'):
+        return [k, bb(t[1])]
+    if k == 'drop':
+        return ['drop', _rp(t[1], lo), t[2], bb(t[3]), bb(t[4])] + list(t[5:])
+    if k == 'assert':
+        out = ['assert', t[1], bb(t[2]), t[3]]
+        if len(t) > 5:
+            out += [_ro(t[4], lo, po), _ro(t[5], lo, po)]
+        return out
+    return list(t)
+
+
+def _inline_into(d, callee_of, depth, stack):
+    """returns a copy of fact dict d with calls to callee_of(name) (a dict name -> fact dict) inlined"""
+    bbs = [dict(b, s=list(b['s'])) for b in d['bb']]
+    locals_ = list(d['locals'])
+    promoted = list(d.get('promoted', []))
+    inlined = []
+    i = 0
+    while i < len(bbs):
+        t = bbs[i]['t']
+        if t[0] == 'call' and not bbs[i]['cleanup']:
+            g = callee_of.get(t[2])
+            if g is not None and t[2] not in stack and depth > 0 and len(g['bb']) <= 400 and not g.get('co'):
+                gd = _inline_into(g, callee_of, depth - 1, stack | {t[2]})
+                lo, bo, po = len(locals_), len(bbs), len(promoted)
+                locals_ += gd['locals']
+                promoted += gd.get('promoted', [])
+                line = t[7] if len(t) > 7 else d['l']
+                for k_, a in enumerate(t[3]):
+                    bbs[i]['s'].append([[lo + 1 + k_, []], ['use', a], line])
+                dest, target = t[4], t[5]
+                bbs[i]['t'] = ['goto', bo]
+                for b in gd['bb']:
+                    nb = {'s': [[_rp(st[0], lo), _rrv(st[1], lo, po)] + list(st[2:]) for st in b['s']], 'cleanup': b['cleanup'],
+                          't': _rterm(b['t'], lo, bo, po)}
+                    if nb['t'][0] == 'ret':
+                        nb['s'].append([dest, ['use', ['m', [lo, []]]], line])
+                        nb['t'] = ['goto', target] if isinstance(target, int) and target >= 0 else ['unreach']
+                    bbs.append(nb)
+                inlined.append(t[2])
+                inlined += gd.get('inlined', [])
+        i += 1
+    nd = dict(d)
+    nd['bb'], nd['locals'], nd['promoted'] = bbs, locals_, promoted
+    nd['inlined'] = inlined
+    return nd
+
+
+def apply_inlining(crate):
+    inv = inventory().get(crate.name)
+    if not inv:
+        return
+    new = {n: f.d for n, f in crate.fns.items() if n not in inv and '{closure' not in n and not n.startswith('<') and not f.d.get('co')}
+    if not new:
+        return
+    crate.extracted_helpers = sorted(new)
+    crate.raw_fns = dict(crate.fns)
+    called = set()
+    for n, f in list(crate.fns.items()):
+        if any(b['t'][0] == 'call' and b['t'][2] in new for b in f.bbs if not b['cleanup']):
+            called |= {b['t'][2] for b in f.bbs if b['t'][0] == 'call' and b['t'][2] in new}
+            nd = _inline_into(f.d, new, 3, {n})
+            crate.fns[n] = Fn(nd, crate.name)
+    # a helper that is now part of its callers is no longer a function of its own for the rules — unless some call to it
+    # could not be inlined (recursion, depth), or nothing in the crate calls it (a new entry point)
+    still = set()
+    for n, f in crate.fns.items():
+        for b in f.bbs:
+            if b['t'][0] == 'call' and b['t'][2] in new and n not in new:
+                still.add(b['t'][2])
+    for h in called - still:
+        crate.fns.pop(h, None)
+
+
+def write_inventory(fdir):
+    inv = {}
+    for c in LIB_CRATES:
+        cr = Crate(c, os.path.join(fdir, c + '.jsonl'))
+        inv[c] = sorted(cr.fns.keys())
+    json.dump(inv, open(INVENTORY, 'w'))
+    return sum(len(v) for v in inv.values())
